@@ -240,6 +240,13 @@ def finish(ctx, proof_ok, search=None):
     """Verdict + evidence.  `search(ctx)` is the extended failing-input search used when a proof obligation or
     the correspondence broke and the ordinary oracle pass found nothing."""
     prop = ctx.prop
+    # replay files of earlier runs of this property would be mistaken for this run's
+    import glob
+    for old in glob.glob(os.path.join(VERIF, 'replays', f'{prop}-*.json')):
+        try:
+            os.remove(old)
+        except OSError:
+            pass
     known = [k for k in load_known() if k['property'] == prop]
     lines = []
     new = []
